@@ -4,7 +4,10 @@ and the postconditions of the property.
 
 The event universes are small and fixed; an event is (kind, prefix index,
 next-hop index, interface index) with kind 0 = RTM_NEWROUTE, 1 = RTM_DELROUTE,
-2 = RTM_NEWNEIGH.
+2 = RTM_NEWNEIGH, 3 = the kernel learns the next hop's MAC (its neighbour table
+has the entry) but the RTM_NEWNEIGH notification has not been delivered yet -
+netlink notifications are asynchronous, and the controller also reads the table
+directly when a route arrives.
 """
 import os
 import sys
@@ -20,7 +23,7 @@ import route_control as rc  # noqa: E402  (the real, unmodified controller)
 logging.disable(logging.CRITICAL)
 rc.send_ping = lambda ip: None  # no packets from the harness
 
-NEWROUTE, DELROUTE, NEWNEIGH = 0, 1, 2
+NEWROUTE, DELROUTE, NEWNEIGH, KRESOLVE = 0, 1, 2, 3
 PREFIXES = ["10.1.0.0", "10.2.0.0", "10.3.0.0"]
 HOPS = ["192.168.1.1", "192.168.1.2"]
 MACS = ["00:00:00:00:00:01", "00:00:00:00:00:02"]
@@ -85,7 +88,8 @@ class World:
             bess_controller=self.bess, ndb=self.ndb, ipr=None, interfaces=list(IFACES)
         )
         self.kernel_routes = {}  # (prefix idx, iface idx) -> hop idx
-        self.resolved = set()  # hop idx with a known MAC
+        self.resolved = set()  # hop idx whose RTM_NEWNEIGH was delivered
+        self.kernel_resolved = set()  # hop idx in the kernel's neighbour table
 
     def apply(self, kind, p, h, i):
         """Applies one event; returns False if the kernel could not have produced it."""
@@ -103,11 +107,18 @@ class World:
             self.ctl.delete_route_entry(
                 rc.RouteEntry(next_hop_ip=HOPS[h], interface=IFACES[i], dest_prefix=PREFIXES[p], prefix_len=16)
             )
+        elif kind == KRESOLVE:
+            if h in self.kernel_resolved:
+                return False
+            self.kernel_resolved.add(h)
+            self.ndb.neighbours.table.append({"dst": HOPS[h], "lladdr": MACS[h]})
         else:
             if h in self.resolved:
                 return False  # RTM_NEWNEIGH once per resolution
             self.resolved.add(h)
-            self.ndb.neighbours.table.append({"dst": HOPS[h], "lladdr": MACS[h]})
+            if h not in self.kernel_resolved:
+                self.kernel_resolved.add(h)
+                self.ndb.neighbours.table.append({"dst": HOPS[h], "lladdr": MACS[h]})
             self.ctl.add_unresolved_new_neighbor(
                 {"event": "RTM_NEWNEIGH", "attrs": [("NDA_DST", HOPS[h]), ("NDA_LLADDR", MACS[h])]}
             )
@@ -119,13 +130,16 @@ class World:
         for i, iface in enumerate(IFACES):
             for (prefix, plen), gate in self.bess.routes.get(iface + "Routes", {}).items():
                 installed[(PREFIXES.index(prefix), i)] = gate
+        # required: routes whose next hop's resolution was notified; allowed: routes
+        # whose next hop is in the kernel's table (the controller may have read it)
         want = {k for k, h in self.kernel_routes.items() if h in self.resolved}
+        allowed = {k for k, h in self.kernel_routes.items() if h in self.kernel_resolved}
         for k in want:
             if k not in installed:
                 return "missing: route %s via %s on %s is in the kernel and its next hop is resolved, but not installed" % (
                     PREFIXES[k[0]], HOPS[self.kernel_routes[k]], IFACES[k[1]])
         for k in installed:
-            if k not in want:
+            if k not in allowed:
                 return "stale: route %s on %s is installed but the kernel does not have it (or its next hop is unresolved)" % (
                     PREFIXES[k[0]], IFACES[k[1]])
         # one gate and one update module per next hop (per interface); distinct hops, distinct gates
